@@ -31,7 +31,8 @@ RULE = ("three case kinds from one PRNG: (lcs) integer lists old/new, new derive
         "insertion order, rates, $PK statements and previous TRANS option; (history) start model in {pheno, moxo, "
         "create_basic_pk_model iv/oral, hand-written ADVAN1/3/4 TRANS1/3/4 models} followed by 1-4 public structural "
         "transformations, only the steps that succeed count. non-trivial = lists differ / graph has >= 2 compartments / "
-        "at least one transformation succeeded; distinct = distinct case JSON")
+        "at least one transformation succeeded; (branch) 2-3 sibling derivations (1-2 transformations each, mostly ones that change the "
+        "number of compartments) from ONE parent object, parents mostly with an active numeric CMT data column; distinct = distinct case JSON")
 TRUSTED = [
     "Lean 4.33 kernel; axioms propext, Quot.sound, Classical.choice only (audited per theorem each run)",
     "hand-written models PharmpyModel/C02/{Lcs,Advan,PkConv}.lean tied to lcs.py/update.py/statements.py by the correspondence run",
@@ -59,7 +60,12 @@ TRANSFORMS = [
     ["set_ode_solver", {"solver": "LSODA"}], ["set_ode_solver", {"solver": "GL"}], ["set_proportional_error_model", {}],
     ["set_combined_error_model", {}], ["add_effect_compartment", {"expr": "linear"}], ["add_metabolite", {}],
 ]
-STARTS = ["pheno", "moxo", "basic_iv", "basic_oral", "a1t1", "a3t3", "a3t1", "a4t1", "a3t4", "a4t4", "a2t2"]
+STARTS = ["pheno", "moxo", "basic_iv", "basic_oral", "a1t1", "a3t3", "a3t1", "a4t1", "a3t4", "a4t4", "a2t2",
+          "cmt_a1t2", "cmt_a2t2", "cmt_a4t4"]
+CMT_STARTS = ["cmt_a1t2", "cmt_a2t2", "cmt_a4t4"]
+COUNT_CHANGING = [["set_transit_compartments", {"n": 1}], ["set_transit_compartments", {"n": 2}], ["add_peripheral_compartment", {}],
+                  ["remove_peripheral_compartment", {}], ["set_first_order_absorption", {}], ["set_instantaneous_absorption", {}],
+                  ["set_zero_order_absorption", {}], ["set_seq_zo_fo_absorption", {}], ["set_peripheral_compartments", {"n": 2}]]
 
 RATES = ["K", "KA", "CL/V", "Q/V2", "K12", "K21", "THETA(1)", "CL/V1", "Q/V1", "K23", "K32", "CL/V2", "KTR"]
 COMPNAMES = ["CENTRAL", "DEPOT", "PERIPHERAL1", "PERIPHERAL2", "TRANSIT1", "EFFECT", "METABOLITE"]
@@ -162,16 +168,27 @@ def gen_history(rng):
     return {"kind": "history", "start": start, "ops": ops, "seed": rng.randrange(1 << 30)}
 
 
+def gen_branch(rng):
+    """Several derivations from ONE parent object (siblings, as a model search makes them)."""
+    start = rng.choice(CMT_STARTS) if rng.random() < 0.7 else rng.choice(STARTS)
+    prefix = [rng.choice(TRANSFORMS)] if rng.random() < 0.3 else []
+    pool = COUNT_CHANGING if rng.random() < 0.8 else TRANSFORMS
+    branches = [[rng.choice(pool) for _ in range(rng.choice([1, 1, 2]))] for _ in range(rng.randint(2, 3))]
+    return {"kind": "branch", "start": start, "prefix": prefix, "branches": branches, "seed": rng.randrange(1 << 30)}
+
+
 def gen_cases(rng, n, tier):
     out = []
     for i in range(n):
         r = rng.random()
         if r < 0.35:
             out.append(gen_lcs(rng))
-        elif r < 0.75:
+        elif r < 0.72:
             out.append(gen_graph(rng))
-        else:
+        elif r < 0.90:
             out.append(gen_history(rng))
+        else:
+            out.append(gen_branch(rng))
     return out
 
 
@@ -205,6 +222,15 @@ def corpus_cases():
         {"kind": "history", "start": "a3t1", "ops": [["set_first_order_absorption", {}], ["set_instantaneous_absorption", {}],
                                                        ["remove_peripheral_compartment", {}]], "seed": 13},
         {"kind": "history", "start": "a3t3", "ops": [["set_first_order_absorption", {}], ["set_instantaneous_absorption", {}]], "seed": 14},
+        # siblings derived from one parent whose dataset has an active CMT column
+        {"kind": "branch", "start": "cmt_a2t2", "prefix": [],
+         "branches": [[["set_transit_compartments", {"n": 1}]], [["add_peripheral_compartment", {}]], [["set_instantaneous_absorption", {}]]], "seed": 15},
+        {"kind": "branch", "start": "cmt_a4t4", "prefix": [],
+         "branches": [[["set_instantaneous_absorption", {}]], [["set_transit_compartments", {"n": 2}]], [["remove_peripheral_compartment", {}]]], "seed": 16},
+        {"kind": "branch", "start": "cmt_a1t2", "prefix": [["set_first_order_absorption", {}]],
+         "branches": [[["set_transit_compartments", {"n": 1}]], [["add_peripheral_compartment", {}], ["set_zero_order_absorption", {}]]], "seed": 17},
+        {"kind": "history", "start": "cmt_a2t2", "ops": [["set_transit_compartments", {"n": 2}], ["add_peripheral_compartment", {}],
+                                                           ["set_zero_order_absorption", {}], ["set_first_order_absorption", {}]], "seed": 18},
     ]
 
 
@@ -216,6 +242,23 @@ def shrink(case):
                 c = dict(case)
                 c["ops"] = ops[:i] + ops[i + 1:]
                 yield c
+    elif case["kind"] == "branch":
+        br = case["branches"]
+        if case["prefix"]:
+            c = dict(case)
+            c["prefix"] = []
+            yield c
+        for i in range(len(br)):
+            if len(br) > 1:
+                c = dict(case)
+                c["branches"] = br[:i] + br[i + 1:]
+                yield c
+        for i in range(len(br)):
+            for j in range(len(br[i])):
+                if len(br[i]) > 1:
+                    c = dict(case)
+                    c["branches"] = br[:i] + [br[i][:j] + br[i][j + 1:]] + br[i + 1:]
+                    yield c
     elif case["kind"] == "lcs":
         for key in ("old", "new"):
             for i in range(len(case[key])):
@@ -262,6 +305,10 @@ CUSTOM = {
              "(0,0.005) (0,1) (0,0.01) (0,2)"),
     "a4t1": ("ADVAN4", "TRANS1", "K = THETA(1)*EXP(ETA(1))\nV = THETA(2)*EXP(ETA(2))\nK23 = THETA(3)\nK32 = THETA(4)\nKA = THETA(5)\nS2 = V",
              "(0,0.005) (0,1) (0,0.01) (0,0.02) (0,0.5)"),
+    "cmt_a1t2": ("ADVAN1", "TRANS2", "CL = THETA(1)*EXP(ETA(1))\nV = THETA(2)*EXP(ETA(2))\nS1 = V", "(0,0.005) (0,1)"),
+    "cmt_a2t2": ("ADVAN2", "TRANS2", "CL = THETA(1)*EXP(ETA(1))\nV = THETA(2)*EXP(ETA(2))\nKA = THETA(3)\nS2 = V", "(0,0.005) (0,1) (0,0.5)"),
+    "cmt_a4t4": ("ADVAN4", "TRANS4", "CL = THETA(1)*EXP(ETA(1))\nV2 = THETA(2)*EXP(ETA(2))\nQ = THETA(3)\nV3 = THETA(4)\nKA = THETA(5)\nS2 = V2",
+                 "(0,0.005) (0,1) (0,0.01) (0,2) (0,0.5)"),
     "a4t4": ("ADVAN4", "TRANS4", "CL = THETA(1)*EXP(ETA(1))\nV2 = THETA(2)*EXP(ETA(2))\nQ = THETA(3)\nV3 = THETA(4)\nKA = THETA(5)\nS2 = V2",
              "(0,0.005) (0,1) (0,0.01) (0,2) (0,0.5)"),
 }
@@ -284,6 +331,14 @@ def worker_init():
 
 
 def start_model(name):
+    """A start model with a DataFrame of its own (a case must not see data another case's bug wrote into)."""
+    m = _start_model(name)
+    if m.dataset is not None:
+        m = m.replace(dataset=m.dataset.copy())
+    return m
+
+
+def _start_model(name):
     if name in _START_CACHE:
         return _START_CACHE[name]
     if name in ("pheno", "moxo"):
@@ -292,6 +347,22 @@ def start_model(name):
         m = pm.convert_model(pm.create_basic_pk_model("iv"), "nonmem")
     elif name == "basic_oral":
         m = pm.convert_model(pm.create_basic_pk_model("oral"), "nonmem")
+    elif name.startswith("cmt_"):
+        # dataset with an active numeric CMT column: doses into compartment 1, observations of the central compartment
+        advan, trans, pk, thetas = CUSTOM[name]
+        d = scratch_root() / "c02-starts"
+        d.mkdir(parents=True, exist_ok=True)
+        obs = 1 if advan == "ADVAN1" else 2
+        lines = ["ID,TIME,AMT,DV,CMT,WGT"]
+        for i in (1, 2, 3):
+            lines.append(f"{i},0,100,0,1,{70 + i}")
+            for t in (1, 2, 4, 8):
+                lines.append(f"{i},{t},0,{round(10.0 / t + i, 3)},{obs},{70 + i}")
+        (d / f"{name}.csv").write_text("\n".join(lines) + "\n")
+        code = CODE_TMPL.format(name=name, data=f"{name}.csv", advan=advan, trans=trans, pk=pk, thetas=thetas)
+        code = code.replace("$INPUT ID TIME AMT WGT APGR DV FA1 FA2", "$INPUT ID TIME AMT DV CMT WGT")
+        (d / f"{name}.mod").write_text(code)
+        m = pm.read_model(d / f"{name}.mod")
     else:
         advan, trans, pk, thetas = CUSTOM[name]
         data = REPO_SRC / "pharmpy" / "internals" / "example_models" / "pheno.dta"
@@ -806,11 +877,48 @@ PREDPP_RATES = {"ADVAN1": [], "ADVAN2": [], "ADVAN3": ["K12", "K21"], "ADVAN4": 
                 "ADVAN11": ["K12", "K21", "K13", "K31"], "ADVAN12": ["K23", "K32", "K24", "K42"]}
 
 
-def witness_class(model, generic):
+TRANS_VOLUME = {("ADVAN1", "TRANS2"): "V", ("ADVAN2", "TRANS2"): "V", ("ADVAN3", "TRANS4"): "V1", ("ADVAN11", "TRANS4"): "V1",
+                ("ADVAN4", "TRANS4"): "V2", ("ADVAN12", "TRANS4"): "V2"}
+
+
+def doses_left_on_central(model, df):
+    """Written dose records point at the central compartment although the model doses elsewhere."""
+    cs = model.statements.ode_system
+    if cs is None or df is None or "CMT" not in df.columns or "AMT" not in df.columns:
+        return False
+    try:
+        names = cs.compartment_names
+        dosing = [names.index(c.name) + 1 for c in cs.dosing_compartments]
+        central = names.index(cs.central_compartment.name) + 1
+    except ValueError:
+        return False
+    got = set(int(v) for v in df["CMT"].astype(float)[df["AMT"].astype(float) != 0].unique())
+    return len(dosing) == 1 and dosing[0] != central and got == {central}
+
+
+def witness_class(model, generic, what="", df=None):
     """Decidable witness classes of the known defects; anything else keeps its generic class."""
     cstream = model.internals.control_stream
     cs = model.statements.ode_system
     c_advan, c_trans = code_advan(model)
+    if cs is not None and (any(cs._g.edges[e]["rate"] == 0 for e in cs._g.edges)
+                           or any(n != output and cs._g.out_degree(n) == 0 for n in cs._g.nodes)):
+        return "in-memory-system-has-dead-end-compartment"
+    if generic.startswith(("disk-", "cmt-")) and cs is not None and cstream.get_records("DES"):
+        cmap = {kk: v for kk, v in (model.internals.compartment_map or {}).items() if kk != "OUTPUT"}
+        if cmap and cmap != {nm: i + 1 for i, nm in enumerate(cs.compartment_names)}:
+            return "stale-compartment-map-on-des-path"
+    if generic.startswith(("disk-", "cmt-dose")) and doses_left_on_central(model, df):
+        return "cmt-doses-left-on-central"
+    if generic.endswith("dose-parameters") and ("D1.0" in what or "R1.0" in what or "D2.0" in what or "R2.0" in what):
+        return "reader-float-cmt-in-dose-parameter-name"
+    if cs is not None and (c_advan, c_trans) in TRANS_VOLUME and generic.endswith(("ode-rhs", "value-dv", "value-F", "value-IPRED")):
+        try:
+            rate = str(cs.get_flow(cs.central_compartment, output))
+        except ValueError:
+            rate = None
+        if rate is not None and rate != f"CL/{TRANS_VOLUME[(c_advan, c_trans)]}":
+            return "trans-volume-name-mismatch"
     assigned = {str(s.symbol) for s in model.statements.before_odes if isinstance(s, Assignment)}
     if generic.endswith(("ode-rhs", "value-dv", "value-F", "value-IPRED")) and cs is not None:
         if c_advan in PREDPP_RATES and c_trans in (None, "TRANS1"):
@@ -841,7 +949,7 @@ _TWIN_CACHE = {}
 def generic_twin(name):
     if name not in _TWIN_CACHE:
         try:
-            _TWIN_CACHE[name] = pm.convert_model(start_model(name), "generic")
+            _TWIN_CACHE[name] = pm.convert_model(_start_model(name), "generic")
         except Exception:
             _TWIN_CACHE[name] = None
     return _TWIN_CACHE[name]
@@ -970,9 +1078,10 @@ def run_history(case, drv):
                     C = None
                 if C is not None:
                     tags.append("disk-roundtrip")
+                    check_routing(model, m3.dataset, label, mon, tags)
                     for f in compare_meaning(A, C, rng, "disk", True):
                         f["what"] = f"{label}: " + f["what"]
-                        f["cls"] = witness_class(model, f["cls"])
+                        f["cls"] = witness_class(model, f["cls"], f["what"], m3.dataset)
                         mon.append(f)
     finally:
         shutil.rmtree(root, ignore_errors=True)
@@ -980,7 +1089,121 @@ def run_history(case, drv):
     return {"k": k, "mon": mon, "tags": tags, "nontrivial": done >= 1}
 
 
+def check_routing(model, df, label, mon0, tags):
+    """The written data columns CMT / RATE must agree with the dose and observation routing of the in-memory graph."""
+    mon = []
+    _check_routing(model, df, label, mon, tags)
+    for f in mon:
+        f["cls"] = witness_class(model, f["cls"], f["what"], df)
+        mon0.append(f)
+
+
+def _check_routing(model, df, label, mon, tags):
+    cs = model.statements.ode_system
+    if cs is None or df is None or "AMT" not in df.columns:
+        return
+    names = cs.compartment_names
+    try:
+        dosing = sorted(names.index(c.name) + 1 for c in cs.dosing_compartments)
+        central = names.index(cs.central_compartment.name) + 1
+    except ValueError:
+        return
+    dose_rows = df["AMT"].astype(float) != 0
+    di = model.datainfo
+    if "CMT" in df.columns and "CMT" in di.names and not di["CMT"].drop and len(model.dependent_variables) == 1:
+        tags.append("cmt-routing-checked")
+        cmt = df["CMT"].astype(float)
+        got_d = sorted(set(int(v) for v in cmt[dose_rows].unique()))
+        got_o = sorted(set(int(v) for v in cmt[~dose_rows].unique()))
+        if len(dosing) == 1 and any(v not in (0, dosing[0]) for v in got_d):
+            mon.append({"cls": "cmt-dose-routing", "what": f"{label}: dose records have CMT {got_d}, the model doses into "
+                        f"compartment {dosing} of {names}"})
+        if any(v not in (0, central) for v in got_o):
+            mon.append({"cls": "cmt-observation-routing", "what": f"{label}: observation records have CMT {got_o}, the model observes "
+                        f"compartment {central} ({names[central - 1]}) of {names}"})
+    if "RATE" in df.columns and "RATE" in di.names and not di["RATE"].drop and len(dosing) == 1:
+        tags.append("rate-routing-checked")
+        d0 = cs.dosing_compartments[0].doses[0]
+        rate = df["RATE"].astype(float)
+        if type(d0).__name__ == "Infusion" and d0.duration is not None and str(d0.duration).startswith("D"):
+            ok = (rate[dose_rows] == -2).all() and (rate[~dose_rows] == 0).all()
+        elif type(d0).__name__ == "Bolus":
+            ok = (rate[dose_rows] == 0).all()
+        else:
+            ok = True
+        if not ok:
+            mon.append({"cls": "rate-column-routing", "what": f"{label}: RATE column {sorted(set(rate[dose_rows]))} on dose records "
+                        f"does not fit the dose {d0}"})
+
+
+def _frame_key(df):
+    return None if df is None else (tuple(df.columns), df.to_csv(index=False))
+
+
+def run_branch(case, drv):
+    rng = random.Random(case["seed"])
+    k, mon, tags = [], [], ["kind=branch", f"start={case['start']}", f"branches={len(case['branches'])}"]
+    parent = start_model(case["start"])
+    for name, kw in case["prefix"]:
+        try:
+            parent = getattr(pm, name)(parent, **kw)
+        except Exception as e:
+            tags.append(f"op-refused:{name}:{type(e).__name__}")
+    root = scratch_root() / f"c02-b{case['seed']}"
+    done = 0
+    try:
+        for bi, ops in enumerate(case["branches"]):
+            before = _frame_key(parent.dataset)
+            before_code = parent.code
+            child = parent
+            applied = []
+            for name, kw in ops:
+                try:
+                    child = getattr(pm, name)(child, **kw)
+                    child.code
+                    applied.append(name)
+                except Exception as e:
+                    tags.append(f"op-refused:{name}:{type(e).__name__}")
+            if not applied:
+                continue
+            done += 1
+            label = f"{case['start']}{'+' + '+'.join(n for n, _ in case['prefix']) if case['prefix'] else ''} | sibling {bi + 1}: {'+'.join(applied)}"
+            tags += [f"op:{n}" for n in applied]
+            # deriving a model must not change the parent (C06's statement; it is the mechanism behind wrong sibling data)
+            if _frame_key(parent.dataset) != before or parent.code != before_code:
+                mon.append({"cls": "parent-changed-by-derived-model", "what": f"{label}: the parent's dataset/code changed while deriving this model"})
+            if child.statements.ode_system is None:
+                continue
+            try:
+                A = meaning(child)
+            except exprconv.Unsupported:
+                continue
+            if child.dataset is None:
+                continue
+            root.mkdir(parents=True, exist_ok=True)
+            path = root / f"b{bi}.mod"
+            try:
+                pm.write_model(child, path=path, force=True)
+                m3 = pm.read_model(path)
+                C = meaning(m3)
+            except Exception as e:
+                mon.append({"cls": reread_class(child, "disk"), "what": f"{label}: write_model/read_model raised {type(e).__name__}: {e}"[:400]})
+                continue
+            tags.append("disk-roundtrip")
+            check_routing(child, m3.dataset, label, mon, tags)
+            for f in compare_meaning(A, C, rng, "disk", True):
+                f["what"] = f"{label}: " + f["what"]
+                f["cls"] = witness_class(child, f["cls"], f["what"], m3.dataset)
+                mon.append(f)
+    finally:
+        shutil.rmtree(root, ignore_errors=True)
+    tags.append(f"siblings-done={done}")
+    return {"k": k, "mon": mon, "tags": tags, "nontrivial": done >= 2}
+
+
 def run_case(case, drv):
+    if case["kind"] == "branch":
+        return run_branch(case, drv)
     if case["kind"] == "lcs":
         return run_lcs(case, drv)
     if case["kind"] == "graph":
